@@ -465,4 +465,40 @@ def classCall (eps : Rat) (c : Metric) (o : ClsOpts) (yt yp : Mat) (kw : Kw) : E
   | .asym => call eps c { base with thr := o.thr, l := o.l, r := o.r }
   | .relloss => call eps c { base with rlf := o.rlf }
 
+/-! ### a metric object over time
+Metric classes are sklearn `BaseEstimator`s: the constructor stores the options as public attributes, `set_params` /
+attribute assignment overwrite them, `clone` builds a new object from `get_params()`, and `__call__` reads the
+attributes when it is called.  Nothing else is stored: a call leaves the object unchanged. -/
+structure Obj where
+  c : Metric
+  opts : ClsOpts
+
+inductive ObjOp
+  | setParams (o : ClsOpts)     -- obj.set_params(**o)
+  | setAttr (o : ClsOpts)       -- obj.<option> = value, for every option
+  | clone                       -- obj = sklearn.base.clone(obj)
+  | call (yt yp : Mat) (kw : Kw)
+
+/-- one step: the object afterwards and, for a call, what it returned -/
+def Obj.step (eps : Rat) (ob : Obj) : ObjOp → Obj × Option (Except Err Out)
+  | .setParams o => ({ ob with opts := o }, none)
+  | .setAttr o => ({ ob with opts := o }, none)
+  | .clone => ({ c := ob.c, opts := ob.opts }, none)
+  | .call yt yp kw => (ob, some (classCall eps ob.c ob.opts yt yp kw))
+
+/-- run a history; the results of the calls, in order -/
+def Obj.run (eps : Rat) : Obj → List ObjOp → List (Except Err Out)
+  | _, [] => []
+  | ob, op :: rest =>
+    match ob.step eps op with
+    | (ob', none) => Obj.run eps ob' rest
+    | (ob', some r) => r :: Obj.run eps ob' rest
+
+/-- the options an object holds after a history -/
+def Obj.optsAfter (o : ClsOpts) : List ObjOp → ClsOpts
+  | [] => o
+  | .setParams o' :: rest => Obj.optsAfter o' rest
+  | .setAttr o' :: rest => Obj.optsAfter o' rest
+  | _ :: rest => Obj.optsAfter o rest
+
 end SkVerif.Metrics
